@@ -72,7 +72,7 @@ type syncScen struct {
 	Workers  int
 	Explicit bool   // explicit asset list (otherwise taken from the target)
 	Kind     string // memory | filesystem
-	Cal      int    // calendar of the snapshot dates: 0 = UTC midnights; 1 / 2 = local midnights in America/New_York where day 1 is the 23-hour / 25-hour day of 2024
+	Cal      int    // calendar of the snapshot dates: 0 = UTC midnights of March 2021; 1 / 2 = local midnights in America/New_York where day 1 is the 23-hour / 25-hour day of 2024; 3 = year 2300; 4 = new year 1902
 }
 
 var nyLoc = func() *time.Location {
@@ -90,6 +90,10 @@ func calDay(cal, d int) time.Time {
 		return time.Date(2024, 3, 9+d, 0, 0, 0, 0, nyLoc) // day 1 = 10 March 2024, 23 hours
 	case 2:
 		return time.Date(2024, 11, 2+d, 0, 0, 0, 0, nyLoc) // day 1 = 3 November 2024, 25 hours
+	case 3:
+		return time.Date(2300, 1, 1+d, 0, 0, 0, 0, time.UTC) // far ahead of any wall clock: what is copied depends on the repositories only
+	case 4:
+		return time.Date(1901, 12, 30+d, 0, 0, 0, 0, time.UTC) // far in the past, across a year end
 	}
 	return day(d)
 }
@@ -107,7 +111,7 @@ func (s syncScen) String() string {
 	}
 	cal := ""
 	if s.Cal != 0 {
-		cal = fmt.Sprintf(", local-midnight dates across the %d-hour day", map[int]int{1: 23, 2: 25}[s.Cal])
+		cal = ", " + map[int]string{1: "local-midnight dates across the 23-hour day", 2: "local-midnight dates across the 25-hour day", 3: "dates in the year 2300", 4: "dates around new year 1902"}[s.Cal]
 	}
 	return fmt.Sprintf("%s target, workers=%d, explicit=%v, assets=[%s]%s", s.Kind, s.Workers, s.Explicit, strings.Join(p, " "), cal)
 }
@@ -291,7 +295,7 @@ func syncScens(tier string) []syncScen {
 	}
 	// "the day after the last date" across a daylight-saving change: dates are local midnights and the target's last
 	// date is the 23-hour (25-hour) day; the in-memory repositories keep the dates as given (scheduling is irrelevant here: one worker)
-	for _, cal := range []int{1, 2} {
+	for _, cal := range []int{1, 2, 3, 4} {
 		for _, ex := range []bool{true, false} {
 			for _, a := range per {
 				if a.Fault {
